@@ -55,6 +55,8 @@ def strategy(tier, unit):
     return st.fixed_dictionaries({
         "k": st.just("pdb"), "sgno": st.integers(1, 230), "placeholders": st.booleans(),
         "abc": st.tuples(S.fl(5, 90), S.fl(5, 90), S.fl(5, 90)).map(list), "ang": st.tuples(S.fl(65, 115), S.fl(91, 120), S.fl(-1, 1)).map(list),
+        "origin": st.one_of(st.just([0.0, 0.0, 0.0]), st.tuples(S.fl(-0.5, 0.5), S.fl(-0.5, 0.5), S.fl(-0.5, 0.5)).map(list),
+                            st.sampled_from([[0.25, 0.0, 0.5], [0.0, 0.25, 0.0]])),
         "atoms": st.lists(atom, min_size=1, max_size=8)})
 
 
@@ -247,7 +249,7 @@ def float_multiplicity(g, pos):
 def check_cif(case, ctx, tmp):
     from xfab import structure
     text, exp = write_cif(case)
-    p = os.path.join(tmp, "t%d.cif" % os.getpid())
+    p = os.path.join(tmp, "structure.cif")
     with open(p, "w") as fh:
         fh.write(text)
     ctx.nontrivial(exp["any_esd"] and exp["non_uiso"])
@@ -390,14 +392,14 @@ def write_pdb(case):
     L = ["HEADER    TEST", "CRYST1%9.3f%9.3f%9.3f%7.2f%7.2f%7.2f %-11s%4d" % (cell[0], cell[1], cell[2], cell[3], cell[4], cell[5], sym, g.nsymop)]
     scale = []
     for i in range(3):
-        row = "SCALE%d    %10.6f%10.6f%10.6f     %10.5f" % (i + 1, Sm[i, 0], Sm[i, 1], Sm[i, 2], 0.0)
+        row = "SCALE%d    %10.6f%10.6f%10.6f     %10.5f" % (i + 1, Sm[i, 0], Sm[i, 1], Sm[i, 2], case.get("origin", [0.0, 0.0, 0.0])[i])
         L.append(row)
         scale.append([float(row[10:20]), float(row[20:30]), float(row[30:40]), float(row[45:55])])
     scale = np.array(scale)
     els = elements()
     atoms = []
     for k, a_ in enumerate(case["atoms"]):
-        xyz = A @ np.array(a_["frac"], float)
+        xyz = A @ (np.array(a_["frac"], float) - np.array(case.get("origin", [0.0, 0.0, 0.0]), float))
         el = els[a_["el"]]
         name = a_["name"][:4]
         rec = "HETATM" if a_["het"] else "ATOM  "
@@ -418,11 +420,13 @@ def check_pdb(case, ctx, tmp):
     if text is None:
         ctx.event("pdb/symbol-too-long-skipped")
         return
-    p = os.path.join(tmp, "t%d.pdb" % os.getpid())
+    p = os.path.join(tmp, "structure.pdb")
     with open(p, "w") as fh:
         fh.write(text)
     ctx.nontrivial(exp["oblique"])
     ctx.event("pdb")
+    if any(case.get("origin", [0, 0, 0])):
+        ctx.event("pdb/non-zero-SCALE-translation")
     if " 1" in exp["symbol"]:
         ctx.event("pdb/symbol-with-1-token")
     GR.touch_sibling(case["sgno"], "standard")
@@ -467,7 +471,10 @@ def check_pdb(case, ctx, tmp):
 
 
 def check(case, ctx):
-    tmp = tempfile.mkdtemp(prefix="c17_")
+    # history: successive files are written to the SAME path (a program re-reading a file it has rewritten must see
+    # the new contents); the directory is private to this process and removed again after every case
+    tmp = os.path.join(tempfile.gettempdir(), "xfab_c17_%d" % os.getpid())
+    os.makedirs(tmp, exist_ok=True)
     try:
         if case["k"] == "cif":
             check_cif(case, ctx, tmp)
